@@ -21,6 +21,7 @@
 (* Rules as implemented (lib.rs line numbers of the unchanged tree):       *)
 (*   u8/bool/char/uN/iN/fN  fixed width little endian            (351-433) *)
 (*   str/String/CStr/FlexStr  write_length_prefix(len) ++ bytes  (258,435) *)
+(*       write_length_prefix = write_usize: 8 bytes little endian    (247) *)
 (*   Vec/[T]/[T;N]/VecDeque/LinkedList  length prefix ++ items   (447,629) *)
 (*   Option/Result/derived enum  Discriminant raw bytes ++ payload (546,   *)
 (*                               stable_hash_derive impl_stable_hash_enum) *)
@@ -170,6 +171,24 @@ Tok(t, r, J) ==
             \o Cat([i \in DOMAIN r |-> Tok(t.a[1], r[i][1], J) \o Tok(t.a[2], r[i][2], J)])
 
 IsPrefix(s, t) == Len(s) <= Len(t) /\ SubSeq(t, 1, Len(s)) = s
+
+(* ------------------- requirement on the length encoding ---------------- *)
+(* "Unambiguous byte stream" rests on ONE property of the encoder behind   *)
+(* `write_length_prefix`: the byte strings it produces over all lengths    *)
+(* form a PREFIX CODE - no encoding is a prefix of the encoding of another *)
+(* length.  Then the end of the length field is determined by the bytes    *)
+(* read so far, and `length ++ payload` frames concatenate to a uniquely   *)
+(* decodable stream whatever the payload bytes are.  The fixed-width       *)
+(* little-endian encoding used here (LE, as `write_usize`) satisfies it    *)
+(* trivially (all encodings have one length and differ).  The requirement  *)
+(* itself, other encoders (compact with escape byte, with and without the  *)
+(* off-by-one threshold; variable length without terminator) and the       *)
+(* derivation of stream injectivity for composite values are in            *)
+(* StableHashLenCode.tla; the bytes the real code writes are validated     *)
+(* against it by StableHashLenTrace.tla.                                   *)
+IsPrefixCode(E(_), L) == \A n, m \in L : n # m => ~IsPrefix(E(n), E(m))
+LenEnc(n) == LenTok(n, FALSE)
+LenCodeIsPrefixCode == IsPrefixCode(LenEnc, 0..(MaxLen + 1))
 
 (* ------------------------------- helpers ------------------------------- *)
 InsertAt(s, p, x) == SubSeq(s, 1, p - 1) \o <<x>> \o SubSeq(s, p, Len(s))
